@@ -208,16 +208,7 @@ def check_reject(acc, mods, s, kind):
         acc.c["transitions"] += 1
         if got != ("ValueError",):
             backend = name if name != "parse" else ("rs" if "rs" in fns else "py")
-            kf = "C13-rs-order-by-nonzero" if (backend == "rs" and kind == "out-of-order" and kf_rs_order(s)) else None
-            acc.mismatch(f"reject.{name}", kind, case, got, ["ValueError"], kf=kf)
-
-
-def kf_rs_order(s):
-    """C13-rs-order-by-nonzero: the compiled parser detects misplaced designators by testing whether a LATER
-    component is already non-zero, so a misplaced designator is accepted when the later components are all zero."""
-    import re
-    parts = re.findall(r"(\d+)([YMWDHS])", s.replace("T", ""))
-    return any(int(v) == 0 for v, _ in parts[:-1])
+            acc.mismatch(f"reject.{name}", kind, case, got, ["ValueError"])
 
 
 # ---- intervals --------------------------------------------------------------------------------------------
@@ -421,6 +412,15 @@ def run_shard(shard):
                         s = "P" + ("T" if part is time_part else "") + "".join(f"{v}{LETTER[k_]}" for k_, v in comps)
                         acc.c["states"] += 1
                         check_reject(acc, mods, s, "out-of-order")
+        # a designator given twice (every unit, values incl. 0), a week among date designators
+        for k_ in ("Y", "Mo", "D", "H", "Mi", "S", "W"):
+            for v1, v2 in itertools.product((0, 1, 12), repeat=2):
+                pre = "PT" if k_ in ("H", "Mi", "S") else "P"
+                acc.c["states"] += 1
+                check_reject(acc, mods, f"{pre}{v1}{LETTER[k_]}{v2}{LETTER[k_]}", "out-of-order")
+        for s_ in ("P1D2W", "P2W1Y", "P1M2W", "P1Y1M1D1M", "PT1H1M1H", "P1Y2M3DT4H5M6S7S", "P1DT1H1D", "PT1S1M1S"):
+            acc.c["states"] += 1
+            check_reject(acc, mods, s_, "out-of-order")
         fy = ["P1.5Y", "P0.5M", "P1,5Y", "P1.5Y1D", "P1Y2.5M", "P1.5YT1H", "P2.5M3D"]
         # every fraction of 1..3 digits (zero fractions included: a fraction written as .0 is still a fraction) on Y and on M
         for frac in [f"{i:0{w}d}" for w in (1, 2, 3) for i in range(10 ** w)]:
